@@ -192,6 +192,65 @@ fn h_plan(spaces: Vec<Space>, rule: &str, level: &'static str) -> Plan {
 
 // ---------------------------------------------------------------------------------------------
 
+/// long streams: hundreds of requests on one connection, medium-sized messages so that the 8 KiB
+/// buffers are crossed again and again at shifting offsets
+fn long_seq_space(name: &'static str, cfg: SvcCfg, n: u64, wrap: fn(HCase) -> Case) -> Space {
+    let alpha = alphabet::full();
+    Space {
+        name,
+        size: n,
+        exhaustive: false,
+        gen: Box::new(move |_idx, seed| {
+            let mut rng = Rng::new(seed);
+            let len = rng.range(150, 1200) as usize;
+            let a = cfg.scripted[0].clone();
+            let mut stream = Vec::new();
+            for i in 0..len {
+                if rng.chance(1, 3) {
+                    let pad = rng.range(0, 4000) as usize;
+                    stream.extend(frame(&request(
+                        &format!("{}.Echo", a),
+                        Some(json!({"token": format!("h-{}", i), "pad": "p".repeat(pad)})),
+                        Flags::NONE,
+                    )));
+                } else {
+                    // no request kind that ends the connection: the history has to stay long
+                    let fr = loop {
+                        let k = alphabet::random_kind(&mut rng, &alpha);
+                        let fr = frame(&build(&cfg, k, &format!("h-{}", i)));
+                        let keeps_going = match crate::model::classify(&fr[..fr.len() - 1]) {
+                            crate::model::Class::Well(v) => {
+                                let e = crate::model::expect(&cfg, &v);
+                                e.then == crate::model::Then::Continue && !e.unspecified && e.upgraded.is_none()
+                            }
+                            _ => false,
+                        };
+                        if keeps_going {
+                            break fr;
+                        }
+                    };
+                    stream.extend(fr);
+                }
+            }
+            let mut c = HCase::plain(&cfg, &stream);
+            match rng.below(4) {
+                0 => {}
+                1 => c.cuts = random_cuts_r(&mut rng, stream.len(), 1, 40),
+                2 => {
+                    // fixed-size chunks, like a caller reading 8192 bytes at a time
+                    let sz = *rng.pick(&[512usize, 4096, 8192, 8191, 10000]);
+                    c.cuts = (1..stream.len() / sz + 1).map(|k| k * sz).filter(|x| *x < stream.len()).collect();
+                }
+                _ => c.read_plan = random_plan_r(&mut rng, 10, 200, 9000),
+            }
+            if rng.chance(1, 3) {
+                c.write_plan = random_plan_r(&mut rng, 10, 100, 9000);
+            }
+            wrap(c)
+        }),
+    }
+}
+
 pub fn c01_h_spaces(tier: Tier) -> Vec<Space> {
     let cfg = SvcCfg::basic();
     let maxlen = if tier == Tier::Quick { 3 } else { 4 };
@@ -205,6 +264,7 @@ pub fn c01_h_spaces(tier: Tier) -> Vec<Space> {
             false,
             Case::H,
         ),
+        long_seq_space("H.seq.long", cfg.clone(), if tier == Tier::Quick { 400 } else { 12_000 }, Case::H),
         random_seq_space(
             "H.seq.random.write-error",
             cfg,
@@ -293,6 +353,19 @@ pub fn c02_streams(tier: Tier) -> Vec<(SvcCfg, Vec<u8>)> {
             s.extend_from_slice(payload.as_bytes());
             v.push((c, s));
         }
+    }
+    // length-prefixed upgraded protocol (one length byte, then that many bytes): the handler peeks,
+    // and hands the length byte back when the payload is not complete yet
+    {
+        let mut c = cfg.clone();
+        c.upgrade_mode = 4;
+        let mut s = frame(&alphabet::upgrade_request(&c, false, "up"));
+        for rec in [&b"abc"[..], b"", b"hello world", b"\0x\n", b"zz"] {
+            s.push(rec.len() as u8);
+            s.extend_from_slice(rec);
+        }
+        s.extend_from_slice(&[9, b'p', b'a', b'r']); // an incomplete frame at the end
+        v.push((c, s));
     }
     // upgrade request followed directly by 0..300 payload bytes, both handler shapes, both kinds of interface
     for mode in [1u8, 2u8] {
@@ -477,6 +550,7 @@ pub fn c02_h_spaces(tier: Tier) -> Vec<Space> {
             }),
         });
     }
+    spaces.push(long_seq_space("H.cut.long", SvcCfg::basic(), if tier == Tier::Quick { 300 } else { 8_000 }, Case::HDiff));
     // seeded random k-cuts with short reads / EINTR / short writes
     {
         let mut st = streams.clone();
@@ -519,6 +593,8 @@ pub const NAME_POOL: &[&str] = &[
     "b.a.b",
     "a.b.Echo",
     "xn--a.b2-c",
+    // 300 bytes: longer than any "reasonable" name limit somebody might build in
+    "long.aaaaaaaaaaaaaaaaaaaaaaaaaaaaaaaaaaaaaaaaaaaaaaaaaaaaaaaaaaaaaaaaaaaaaaaaaaaaaaaaaaaaaaaaaaaaaaaaaaaaaaaaaaaaaaaaaaaaaaaaaaaaaaaaaaaaaaaaaaaaaaaaaaaaaaaaaaaaaaaaaaaaaaaaaaaaaaaaaaaaaaaaaaaaaaaaaaaaaaaaaaaaaaaaaaaaaaaaaaaaaaaaaaaaaaaaaaaaaaaaaaaaaaaaaaaaaaaaaaaaaaaaaaaaaaaaaaaaaaaaaaaaaaaaaaaaaaaaaaaaaaaaaaaaaaaaaaaaaaaaaaa.b",
 ];
 
 fn c03_configs() -> Vec<Vec<String>> {
@@ -736,15 +812,26 @@ pub fn c04_h_spaces(tier: Tier) -> Vec<Space> {
         Kind(Base::UnknownIface, Flags::NONE),
     ];
     let mut spaces = Vec::new();
-    // every oneway kind alone, one request per handle call
+    // every oneway kind alone, one request per handle call; and the same with an extra 9000-byte
+    // member, so that the message is larger than the 8 KiB read buffers
     {
         let (cfg, ow) = (cfg.clone(), ow.clone());
         spaces.push(Space {
             name: "H.oneway.alone",
-            size: ow.len() as u64,
+            size: ow.len() as u64 * 2,
             exhaustive: true,
             gen: Box::new(move |idx, _| {
-                let s = alphabet::stream_of(&cfg, &[ow[idx as usize]], "o");
+                let k = ow[(idx / 2) as usize];
+                let mut req = build(&cfg, k, "o-0");
+                if idx % 2 == 1 {
+                    let o = req.as_object_mut().unwrap();
+                    let p = o.entry("parameters").or_insert_with(|| json!({}));
+                    if let Some(po) = p.as_object_mut() {
+                        po.insert("pad".into(), json!("P".repeat(9000)));
+                    }
+                }
+                let mut s = frame(&req);
+                s.extend(alphabet::stream_of(&cfg, &[Kind(Base::GetInfo, Flags::NONE)], "after"));
                 Case::H(HCase::plain(&cfg, &s))
             }),
         });
@@ -1196,6 +1283,16 @@ pub fn c06_h_spaces(tier: Tier) -> Vec<Space> {
         msgs.push(b"{\"method\":\"org.varlink.service.GetInfo\",\"method\":\"x.y\"}\0".to_vec());
         msgs.push(b"\xEF\xBB\xBF{\"method\":\"org.varlink.service.GetInfo\"}\0".to_vec());
         msgs.push(b"{\"method\":\"org.varlink.service.Get\xC3\x28Info\"}\0".to_vec());
+        // invalid UTF-8 inside a member the request type does not know (and serde therefore skips)
+        msgs.push(b"{\"method\":\"org.varlink.service.GetInfo\",\"x\":\"\xff\"}\0".to_vec());
+        msgs.push(b"{\"comment\":\"caf\xe9\",\"method\":\"org.varlink.service.GetInfo\"}\0".to_vec());
+        {
+            // the same in a message larger than the read buffers
+            let mut m = b"{\"method\":\"org.varlink.service.GetInfo\",\"x\":\"".to_vec();
+            m.extend(std::iter::repeat(b'y').take(9000));
+            m.extend_from_slice(b"\xff\"}\0");
+            msgs.push(m);
+        }
         spaces.push(Space {
             name: "H.malformed.special",
             size: msgs.len() as u64 * 2,
@@ -1287,7 +1384,7 @@ pub fn plan_for(prop: &str, tier: Tier) -> Option<Plan> {
             sp.extend(crate::lsim::c01_spaces(tier));
             let mut p = h_plan(
                 sp,
-                "H: every request sequence over a 12-kind reduced alphabet up to length 3 (quick) / 4 (thorough) and over the full alphabet (kinds x flag sets) up to length 2, each at every pipelining depth 1..len (complete enumeration), plus seeded random sequences of length 5..40 with random depth / byte cuts / short reads / EINTR / short writes, plus a separate write-error (EPIPE at a random offset) batch with prefix-consistency only; L: the same alphabets over the real listen loop on the simulated socket under seeded schedules. A case is distinct by the hash of its explicit form (stream, cuts, I/O plan, schedule seed) and non-trivial when it has >= 2 messages, a cut, an I/O plan entry, a malformed/gray message or an upgrade.",
+                "H: every request sequence over a 12-kind reduced alphabet up to length 3 (quick) / 4 (thorough) and over the full alphabet (kinds x flag sets) up to length 2, each at every pipelining depth 1..len (complete enumeration), plus seeded random sequences of length 5..40 with random depth / byte cuts / short reads / EINTR / short writes, long histories of 150..1200 requests with payloads of 0..4000 bytes (whole, random cuts, fixed-size chunks of 512..10000 bytes, short reads), plus a separate write-error (EPIPE at a random offset) batch with prefix-consistency only; L: the same alphabets over the real listen loop on the simulated socket under seeded schedules. A case is distinct by the hash of its explicit form (stream, cuts, I/O plan, schedule seed) and non-trivial when it has >= 2 messages, a cut, an I/O plan entry, a malformed/gray message or an upgrade.",
                 lv_expl,
             );
             p.real.extend(crate::lsim::REAL_L);
